@@ -217,6 +217,7 @@ struct Delivery {
     uint64_t id = 0;
     int node = -1;
     uint64_t t = 0;
+    uint64_t t_end = 0;          // virtual time when the handling returned (t plus the pauses the core made while handling)
     int op_index = -1;
     size_t len = 0;              // length told by the "kernel" (after faults, <= MTU)
     const uint8_t *buf = nullptr; // effective buffer content handed to the core (mtu bytes)
@@ -272,7 +273,7 @@ struct Node {
     bool usable = true;
     // the context pointer the daemon hands to the core: the node itself, or - after the interface was re-created (hot-plug) - a fresh
     // address from the node's slot array; the core keeps one record per context pointer it has ever seen
-    uint8_t ctxslot[1024];
+    uint8_t ctxslot[8192];
     int ctx_gen = 0;
     void *alias_ctx = nullptr;
     void *ctx() { if (alias_ctx && ctx_gen == 0) return alias_ctx; return cfg.null_ctx && ctx_gen == 0 ? nullptr : (ctx_gen == 0 ? (void *)this : (void *)&ctxslot[ctx_gen - 1]); }
